@@ -134,26 +134,36 @@ func (x *run) adversarial(sched []mstep, extra int) {
 	_, mx := x.minmax()
 	H := mx + 1
 	drift := 0
+	// the model agrees on height 1 (primary of view w = (1-w) mod N); at real height H the primary is (H-w) mod N:
+	// relabel validators so that model primaries are the real ones
+	shift := int(H-1) % x.c.N
+	mp := func(v int) int { return x.c.NodeOfValidator((v + shift) % x.c.N) }
 	for _, s := range sched {
 		if x.fatal != nil {
 			return
 		}
 		switch s.Op {
 		case "timeout":
-			x.timeout(s.V)
+			x.timeout(mp(s.V))
 		case "deliver":
-			id := x.find(s.Type, s.From, s.View, H)
+			view := s.View
+			if s.Type == "ChangeView" {
+				view-- // a ChangeView payload carries the view it was sent in; the model names it by the view it asks for
+			}
+			id := x.find(s.Type, mp(s.From), view, H)
 			if id < 0 {
 				drift++
 				continue
 			}
-			x.deliver(id, s.To)
+			x.deliver(id, mp(s.To))
 		case "silent":
 			x.silent = map[int]bool{}
+			var set []int
 			for _, v := range s.Set {
-				x.silent[v] = true
+				x.silent[mp(v)] = true
+				set = append(set, mp(v))
 			}
-			x.emit(map[string]any{"event": "silent", "set": s.Set})
+			x.emit(map[string]any{"event": "silent", "set": set})
 		}
 	}
 	x.res.Inc("model_steps_unmatched", drift)
@@ -199,9 +209,12 @@ func (x *run) adversarial(sched []mstep, extra int) {
 }
 
 // synchronous: everybody honest, everything delivered, timers fire when nothing else can happen.
-func (x *run) synchronous(blocks int, bound int) {
+func (x *run) synchronous(blocks int, bound int, messy bool) bool {
 	x.silent = map[int]bool{}
-	mn, _ := x.minmax()
+	mn, mxStart := x.minmax()
+	// the phase runs until every validator is `blocks` blocks past the highest block existing at its start: the
+	// first of them may have been proposed before the phase began
+	target := mxStart + uint32(blocks)
 	// transactions every validator has pooled at the start of the phase
 	pend := []string{}
 	for k := 0; k < 2; k++ {
@@ -216,10 +229,10 @@ func (x *run) synchronous(blocks int, bound int) {
 			pend = append(pend, tx.Hash().StringLE())
 		}
 	}
-	x.emit(map[string]any{"event": "syncstart", "minh": mn, "bound": bound, "txs": pend})
-	start := mn
+	x.emit(map[string]any{"event": "syncstart", "minh": mn, "maxh": mxStart, "target": target, "bound": bound, "txs": pend, "messy": messy})
+	idle := 0
 	next := 0
-	for round := 0; round < (blocks+2)*bound+8 && x.fatal == nil; round++ {
+	for round := 0; round < (int(target-mn)+2)*bound+8 && x.fatal == nil; round++ {
 		before, _ := x.minmax()
 		// deliver everything not yet delivered (old payloads too: late delivery)
 		for next < x.c.NMsgs() {
@@ -265,12 +278,26 @@ func (x *run) synchronous(blocks int, bound int) {
 			}
 		}
 		x.emit(map[string]any{"event": "syncround", "round": round, "minh": cur, "heights": x.c.Heights(), "included": incl})
-		if cur >= start+uint32(blocks) {
+		if cur >= target {
 			break
+		}
+		if cur > before {
+			idle = 0
+		} else {
+			idle++
+		}
+		if messy && cur <= mxStart && idle > bound {
+			// the height left over from the asynchronous period does not complete although everybody is honest and
+			// everything is delivered now: outside the statement's liveness clause (recorded, not judged)
+			x.res.Inc("stalls_after_asynchrony", 1)
+			x.emit(map[string]any{"event": "syncend", "minh": cur, "reached": false, "stalled": true})
+			return false
 		}
 	}
 	cur, _ := x.minmax()
-	x.emit(map[string]any{"event": "syncend", "blocks": cur - start})
+	// transactions are judged only in phases long enough to get past a proposal that was already in flight
+	x.emit(map[string]any{"event": "syncend", "minh": cur, "reached": cur >= target && blocks >= 3, "stalled": false})
+	return true
 }
 
 // relay gives lagging nodes the blocks their peers have, through the node's block queue (what the P2P layer does
@@ -365,9 +392,14 @@ func runOne(t *testing.T, res *vh.Result, tr *vh.Trace, id int, n int, sched []m
 	defer c.Close()
 	tr.Emit(map[string]any{"event": "init", "run": id, "n": n, "f": c.F, "m": n - c.F})
 	c.Start()
+	// warm-up: one block with everything delivered, so that every validator has seen every other one (dbft treats
+	// validators it has not heard from as failed and then asks for recovery instead of changing view)
+	x.synchronous(1, 6*x.c.N, false)
 	for phase := 0; phase < 2 && x.fatal == nil; phase++ {
 		x.adversarial(sched, extra)
-		x.synchronous(2, 6*x.c.N)
+		if !x.synchronous(3, 6*x.c.N, true) {
+			break
+		}
 		sched = nil // second adversarial phase is purely random, at a later height and view
 	}
 	x.feedAll()
@@ -384,6 +416,30 @@ func runOne(t *testing.T, res *vh.Result, tr *vh.Trace, id int, n int, sched []m
 	return nil
 }
 
+// runSync is a run in which the statement's liveness condition holds throughout: everybody honest, everything delivered.
+func runSync(t *testing.T, res *vh.Result, tr *vh.Trace, id int, n int) error {
+	dir, err := os.MkdirTemp(os.Getenv("VERIF_WORK"), "c19")
+	if err != nil {
+		return err
+	}
+	defer os.RemoveAll(dir)
+	x := &run{t: t, tr: tr, res: res, r: vh.Rand(int64(id)), silent: map[int]bool{}, given: map[int]map[int]bool{}, id: id}
+	c, err := NewCluster(n, dir, func(ev map[string]any) { tr.Emit(ev) })
+	if err != nil {
+		return err
+	}
+	x.c = c
+	x.lastH = make([]uint32, n)
+	defer c.Close()
+	tr.Emit(map[string]any{"event": "init", "run": id, "n": n, "f": c.F, "m": n - c.F})
+	c.Start()
+	x.synchronous(1, 6*n, false)
+	x.synchronous(2*n, 6*n, false) // two full primary rotations
+	x.feedAll()
+	res.Traces++
+	return x.fatal
+}
+
 func TestDriver(t *testing.T) {
 	res := vh.NewResult()
 	tr := vh.NewTrace("trace.ndjson")
@@ -395,6 +451,16 @@ func TestDriver(t *testing.T) {
 		if err := runOne(t, res, tr, i, 4, s, extra, r); err != nil {
 			tr.Close()
 			t.Fatalf("run %d: %v", i, err)
+		}
+	}
+	for i := 0; i < vh.EnvInt("VERIF_SYNCRUNS", 2); i++ {
+		n := 4
+		if i%2 == 1 {
+			n = 7
+		}
+		if err := runSync(t, res, tr, 2000+i, n); err != nil {
+			tr.Close()
+			t.Fatalf("sync run %d: %v", i, err)
 		}
 	}
 	n7 := vh.EnvInt("VERIF_N7", 1)
